@@ -17,9 +17,9 @@ func init() { Register("C04", "model_checking", C04) }
 
 func C04(c *core.Ctx) {
 	c.Assumption("TLC 1.8.0; spec/tree/Merge.tla written from the Compose merge rules; differential oracle: the real loader loads [base, overrides] as files, as `---` documents and the specification's target alone")
-	cfg := "SPECIFICATION Spec\nCONSTANTS Triples = TRUE\nINVARIANTS Laws\nCHECK_DEADLOCK FALSE\n"
+	cfg := "SPECIFICATION Spec\nCONSTANTS Triples = TRUE\n Cross = FALSE\nINVARIANTS Laws\nCHECK_DEADLOCK FALSE\n"
 	if !c.Quick() {
-		cfg = "SPECIFICATION Spec\nCONSTANTS Triples = TRUE\nINVARIANTS Laws\nCHECK_DEADLOCK FALSE\n"
+		cfg = "SPECIFICATION Spec\nCONSTANTS Triples = TRUE\n Cross = TRUE\nINVARIANTS Laws\nCHECK_DEADLOCK FALSE\n"
 	}
 	dump := filepath.Join(c.Work, "cases")
 	r, err := c.RunTLC(core.TLCOpts{Module: "MC_Merge", CfgText: cfg, Dump: dump, Timeout: 60 * time.Minute, Name: "merge"})
